@@ -110,6 +110,20 @@ func runC08(e *core.Env) {
 			if r.Chance(1, 2) {
 				text, nonUTF8 = c08Decorate(r, d)
 			}
+			switch core.Hash64("c08-shape", fmt.Sprint(e.Seed, i)) % 400 {
+			case 0: // a line beyond 64 KiB (a pasted blob in a summary)
+				if x, ok := withAppended(d, longLineText(r, r.PickInt(65536, 70000, 140000))); ok {
+					text = x.Text
+				}
+			case 1, 2, 3, 4: // invisible characters in front of the first byte: whatever klog makes of them, it must give them back
+				text = r.Pick("\ufeff", "\ufeff", "\u200b", "\ufffe", "\xef\xbb") + text
+			case 5, 6: // ... or in front of a later record (two files concatenated)
+				d2 := gen.Document(r, gen.Opts{MaxRecs: 2, MinRecs: 1, MaxEntries: 2})
+				if text != "" && !strings.HasSuffix(text, "\n") {
+					text += "\n"
+				}
+				text += "\n" + r.Pick("\ufeff", "\u200b") + d2.Text
+			}
 		}
 		e.Begin(i, []byte(text))
 		c08Check(e, r, text, nonUTF8, i)
